@@ -760,6 +760,15 @@ func genMap(r *lib.Rng, bigP int) map[string]string {
 		n = r.Range(3, 12)
 	default:
 		n = r.Range(13, 60)
+		if r.Chance(1, 12) { // entry counts around the powers of two a size hint or a narrow counter might be cut at
+			n = r.Pick(127, 128, 255, 256, 257, 1023, 1024, 1025, 1500, 4097)
+			em.Count("map:many")
+			m := make(map[string]string, n)
+			for i := 0; len(m) < n; i++ {
+				m[fmt.Sprintf("k%x", i*7+r.Intn(7))] = []string{"", "v", "val"}[r.Intn(3)]
+			}
+			return m
+		}
 	}
 	em.Count(fmt.Sprintf("map:%s", sizeClass(n)))
 	m := make(map[string]string, n)
